@@ -810,7 +810,7 @@ class TextXMetaModel(DebugPrinter):
             if callback:
                 callback(other_model)
 
-        if not model:
+        if model is None:
             # Read model from file
             if not model_str:
                 with open(file_name, encoding=encoding) as f:
